@@ -255,7 +255,7 @@ def sig(meta, v, tr):
 def run(ctx: Ctx):
     ctx.model_check("EzspCodecMC", "MC_EzspCodec", constants={"Ids": "{0, 1, 85, 255, 256, 291, 65535}"},
                     invariants=("RoundTrip", "TxShape", "VersionClasses"), coverage=False, workers=4)
-    samples = 1 if ctx.quick else 8
+    samples = 1 if ctx.quick else 40
     per_version = pmap(run_version, [(v, samples, ctx.seed) for v in range(4, 15)], procs=11, chunksize=1) \
         if not ctx.quick else pmap(_rv, [(v, samples, ctx.seed) for v in range(4, 15)], procs=11, chunksize=1)
     traces, metas = [], []
